@@ -49,7 +49,7 @@ import (
 
 const httpPart = "http"
 
-var httpSubs = []string{"http-requests", "sdpfrag", "precondition-headers", "rtcp-report-timing", "cache-resize"}
+var httpSubs = []string{"http-requests", "sdpfrag", "precondition-headers", "rtcp-report-timing", "cache-resize", "sequence-map"}
 
 func runHTTP(res *core.Result) {
 	if isCoordinator() {
@@ -701,6 +701,9 @@ func runHTTPShard(res *core.Result) {
 	}
 	if core.Want("cache-resize") && o.Shard == 2%o.Shards {
 		runCacheResize(res)
+	}
+	if core.Want("sequence-map") && o.Shard == 3%o.Shards {
+		runMapSequences(res)
 	}
 }
 
